@@ -7,7 +7,15 @@
       file|function|operand|callees of the loop body|non-local assignment targets of the body|early exits
   The driver answers `mo-site <row>` with `ok` iff the row is in this table: a NEW map range, or a loop body that calls
   something else than it did when the row was reviewed (a setter instead of collecting keys for a sort …) is a
-  `table-mismatch` and this table — and the model — have to be revisited. chain/consensus has no map range: the refund list
+  `table-mismatch` and this table — and the model — have to be revisited.
+  THIS IS NOT A THEOREM: no Lean statement mentions `table`; `known row` is a string lookup in the driver and the second
+  column is reviewed PROSE.  Re-committing the table makes any code pass; what the run adds is that the committed rows equal
+  a fresh extraction (`mo-site`, `mo-sites N`).  The extractor (trusted Go code of the harness) records as "assignment
+  targets" only index / selector / star targets and `op=` on identifiers: a PLAIN `=` / `:=` to an identifier declared
+  outside the loop (`winner = k`, the classic map-order leak), `++` / `--` and `continue <label>` are NOT in a row; callees
+  are bare last names; slice-index and map-index targets both print `x[]`; what happens AFTER the loop (the `sort` behind the
+  `append`-only rows) is not in the row; ranges outside a FuncDecl and directories other than the five (no sub-directories)
+  are not scanned. chain/consensus has no map range: the refund list
   reaches `refundCandidateDeposit` as a slice the store's candidate loader built from a map (order parameter πR).
   Core Lean only.
 -/
